@@ -52,6 +52,39 @@ def norm(s):
     return s
 
 
+READ = '*iterator.next().expect("")'
+
+
+def reader_helpers(src):
+    """private one-line helpers that read one operand byte: `fn NAME(iterator: &mut InstrIterator, MSG: &str) -> u8|Id { *iterator.next().expect(MSG) }`
+    (optionally with `return`, `as Id`); calls `NAME(iterator, "..")` are expanded to the read they stand for before anything is matched"""
+    names = []
+    for m in re.finditer(r'\nfn (\w+)\(iterator: &mut InstrIterator, (\w+): &(?:\'static )?str\) -> (?:u8|Id|InstByte) \{', src):
+        body = norm(find_fn(src, m.group(1)))
+        b = re.sub(r'^fn [^{]*\{ (?:return )?(.*?);? \}$', r'\1', body)
+        b = re.sub(r' as (?:Id|u8|InstByte)$', '', b.strip()).strip()
+        b = re.sub(r'^\((.*)\)$', r'\1', b)
+        if b == f'*iterator.next().expect({m.group(2)})':
+            names.append(m.group(1))
+    return names
+
+
+def canon(text, readers):
+    """canonical form of normalised Rust text: reader helpers expanded, redundant parentheses around a byte read dropped"""
+    for n in readers:
+        text = re.sub(r'\b' + n + r'\(iterator, ""\)', READ, text)
+    text = re.sub(r'(?<![\w!>])\(' + re.escape(READ) + r'\)', READ, text)
+    return text
+
+
+def canon_helper(text):
+    """helper bodies: `return X;` as last statement / in a match arm is the value X"""
+    text = re.sub(r'^(fn [^{]*\{ )return (.*); \}$', r'\1\2 }', text)
+    text = re.sub(r'=> return (\w+),', r'=> \1,', text)
+    text = re.sub(r'(Term::(?:Pattern|Proved)\(\w+\) => \w+, )Term::(?:Pattern|Proved)\(_\) => panic', r'\1_ => panic', text)
+    return text
+
+
 def find_fn(src, name):
     m = re.search(r'\n(?:pub )?fn ' + name + r'(?:<\'a>)?\(', src)
     if not m:
@@ -177,24 +210,30 @@ def split_arms(body):
 CONS = {'evar': ('EVar', 1), 'svar': ('SVar', 1), 'symbol': ('Sym', 1), 'implies': ('Imp', 2), 'app': ('App', 2),
         'exists': ('Ex', 2), 'mu': ('Mu', 2)}
 HELPERS = {
-    'evar': 'fn evar(id: Id) -> Rc<Pattern> { return Rc::new(Pattern::EVar(id)); }',
-    'svar': 'fn svar(id: Id) -> Rc<Pattern> { return Rc::new(Pattern::SVar(id)); }',
-    'symbol': 'fn symbol(id: Id) -> Rc<Pattern> { return Rc::new(Pattern::Symbol(id)); }',
-    'metavar_unconstrained': 'fn metavar_unconstrained(var_id: Id) -> Rc<Pattern> { return Rc::new(Pattern::MetaVar { id: var_id, e_fresh: vec![], '
-                             's_fresh: vec![], positive: vec![], negative: vec![], app_ctx_holes: vec![] }); }',
-    'exists': 'fn exists(var: Id, subpattern: Rc<Pattern>) -> Rc<Pattern> { return Rc::new(Pattern::Exists { var, subpattern }); }',
-    'mu': 'fn mu(var: Id, subpattern: Rc<Pattern>) -> Rc<Pattern> { return Rc::new(Pattern::Mu { var, subpattern }); }',
-    'esubst': 'fn esubst(pattern: Rc<Pattern>, evar_id: Id, plug: Rc<Pattern>) -> Rc<Pattern> { return Rc::new(Pattern::ESubst { pattern, evar_id, plug }); }',
-    'ssubst': 'fn ssubst(pattern: Rc<Pattern>, svar_id: Id, plug: Rc<Pattern>) -> Rc<Pattern> { return Rc::new(Pattern::SSubst { pattern, svar_id, plug }); }',
-    'implies': 'fn implies(left: Rc<Pattern>, right: Rc<Pattern>) -> Rc<Pattern> { return Rc::new(Pattern::Implies { left, right }); }',
-    'app': 'fn app(left: Rc<Pattern>, right: Rc<Pattern>) -> Rc<Pattern> { return Rc::new(Pattern::App { left, right }); }',
-    'pop_stack': 'fn pop_stack(stack: &mut Stack) -> Term { return stack.pop().expect(""); }',
-    'pop_stack_pattern': 'fn pop_stack_pattern(stack: &mut Stack) -> Rc<Pattern> { match pop_stack(stack) { Term::Pattern(p) => return p, _ => panic!("") } }',
-    'pop_stack_proved': 'fn pop_stack_proved(stack: &mut Stack) -> Rc<Pattern> { match pop_stack(stack) { Term::Proved(p) => return p, _ => panic!("") } }',
-    'read_u8_vec': 'fn read_u8_vec<\'a>(iterator: &mut InstrIterator) -> Vec<u8> { let len = (*iterator.next().expect("")) as usize; '
-                   'let mut vec: Vec<u8> = Vec::with_capacity(len); for _ in 0..len { vec.push(*iterator.next().expect("")); } return vec; }',
+    'evar': 'fn evar(id: Id) -> Rc<Pattern> { Rc::new(Pattern::EVar(id)) }',
+    'svar': 'fn svar(id: Id) -> Rc<Pattern> { Rc::new(Pattern::SVar(id)) }',
+    'symbol': 'fn symbol(id: Id) -> Rc<Pattern> { Rc::new(Pattern::Symbol(id)) }',
+    'metavar_unconstrained': 'fn metavar_unconstrained(var_id: Id) -> Rc<Pattern> { Rc::new(Pattern::MetaVar { id: var_id, e_fresh: vec![], '
+                             's_fresh: vec![], positive: vec![], negative: vec![], app_ctx_holes: vec![] }) }',
+    'exists': 'fn exists(var: Id, subpattern: Rc<Pattern>) -> Rc<Pattern> { Rc::new(Pattern::Exists { var, subpattern }) }',
+    'mu': 'fn mu(var: Id, subpattern: Rc<Pattern>) -> Rc<Pattern> { Rc::new(Pattern::Mu { var, subpattern }) }',
+    'esubst': 'fn esubst(pattern: Rc<Pattern>, evar_id: Id, plug: Rc<Pattern>) -> Rc<Pattern> { Rc::new(Pattern::ESubst { pattern, evar_id, plug }) }',
+    'ssubst': 'fn ssubst(pattern: Rc<Pattern>, svar_id: Id, plug: Rc<Pattern>) -> Rc<Pattern> { Rc::new(Pattern::SSubst { pattern, svar_id, plug }) }',
+    'implies': 'fn implies(left: Rc<Pattern>, right: Rc<Pattern>) -> Rc<Pattern> { Rc::new(Pattern::Implies { left, right }) }',
+    'app': 'fn app(left: Rc<Pattern>, right: Rc<Pattern>) -> Rc<Pattern> { Rc::new(Pattern::App { left, right }) }',
+    'pop_stack': 'fn pop_stack(stack: &mut Stack) -> Term { stack.pop().expect("") }',
+    'pop_stack_pattern': 'fn pop_stack_pattern(stack: &mut Stack) -> Rc<Pattern> { match pop_stack(stack) { Term::Pattern(p) => p, _ => panic!("") } }',
+    'pop_stack_proved': 'fn pop_stack_proved(stack: &mut Stack) -> Rc<Pattern> { match pop_stack(stack) { Term::Proved(p) => p, _ => panic!("") } }',
+    'read_u8_vec': 'fn read_u8_vec<\'a>(iterator: &mut InstrIterator) -> Vec<u8> { let len = *iterator.next().expect("") as usize; '
+                   'let mut vec: Vec<u8> = Vec::with_capacity(len); for _ in 0..len { vec.push(*iterator.next().expect("")); } vec }',
 }
-INST_LOOP = 'for _ in 0..n { let arg = iterator.next().expect(""); ids.push(*arg as Id); plugs.push(pop_stack_pattern(stack)) }'
+INST_LOOPS = ('for _ in 0..n { let arg = iterator.next().expect(""); ids.push(*arg as Id); plugs.push(pop_stack_pattern(stack)) }',
+              'for _ in 0..n { let arg = *iterator.next().expect(""); ids.push(arg as Id); plugs.push(pop_stack_pattern(stack)) }',
+              'for _ in 0..n { let arg = *iterator.next().expect(""); ids.push(arg); plugs.push(pop_stack_pattern(stack)) }',
+              'for _ in 0..n { ids.push(*iterator.next().expect("")); plugs.push(pop_stack_pattern(stack)) }',
+              'for _ in 0..n { ids.push(*iterator.next().expect("") as Id); plugs.push(pop_stack_pattern(stack)) }')
+INST_LOOP_RE = re.compile(r'for _ in 0\.\.n \{ (?:let (\w+) = \*?iterator\.next\(\)\.expect\(""\)(?: as Id)?; ids\.push\(\*?\1(?: as Id)?\);'
+                          r'|ids\.push\(\*iterator\.next\(\)\.expect\(""\)(?: as Id)?\);) plugs\.push\(pop_stack_pattern\(stack\)\);? \}')
 NONE = 'None'
 
 
@@ -308,7 +347,7 @@ class Tr:
         if m:
             self.vecs.add(m.group(1))
             return rest()
-        if s == INST_LOOP:
+        if INST_LOOP_RE.fullmatch(s):
             if self.vecs != {'ids', 'plugs'}:
                 fail('Instantiate loop without the two fresh accumulators')
             return (f'match take_ids true (N.to_nat v_n) bs stk with Some (v_ids, v_plugs, bs, stk) => {rest()} '
@@ -481,6 +520,17 @@ def check_main(repo):
     if 'fs::read("/dev/null")' not in raw:
         fail('main.rs: the claim file of the two-argument form is not /dev/null')
     got = norm(raw)
+    # one-line private helpers `fn NAME(p: T) -> R { EXPR }` are expanded at their call sites; the three buffer names are alpha-renamed
+    for hm in list(re.finditer(r'fn (\w+)\((\w+): \w+\) -> [\w<>]+ \{ (?:return )?([^{};]*);? \} ', got)):
+        name, par, body = hm.groups()
+        if name == 'main':
+            continue
+        got = got.replace(hm.group(0), '')
+        got = re.sub(r'\b' + name + r'\((\w+)\)', lambda mm: re.sub(r'\b' + par + r'\b', mm.group(1), body), got)
+    tm = re.search(r'let \((\w+), (\w+), (\w+)\) = match std::env::args\(\)\.len\(\)', got)
+    if tm:
+        for old, new in zip(tm.groups(), ('gamma_reader', 'claims_reader', 'proof_reader')):
+            got = re.sub(r'\b' + old + r'\b', new, got)
     if got != MAIN_RS:
         fail('main.rs differs from the modelled driver: ' + got[:300])
 
@@ -490,12 +540,14 @@ def generate(repo):
     src = open(os.path.join(repo, 'rust/src/lib.rs')).read()
     src = src.split('\n#[cfg(test)]\nmod tests')[0]
     check_types(strip_strings(src))
+    readers = reader_helpers(src)
     for name, want in HELPERS.items():
-        got = norm(find_fn(src, name))
+        got = canon_helper(canon(norm(find_fn(src, name)), readers))
+        got = re.sub(r'vec\.push\((\*iterator\.next\(\)\.expect\(""\))\); \} return vec; \}$', r'vec.push(\1); } vec }', got)
         if got != want:
             fail(f'helper {name} is not the expected definition: {got[:160]}')
-    bot_def = norm(find_fn(src, 'bot'))
-    not_def = norm(find_fn(src, 'not'))
+    bot_def = canon_helper(norm(find_fn(src, 'bot')))
+    not_def = canon_helper(norm(find_fn(src, 'not')))
     tr = Tr()
     m = re.fullmatch(r'fn bot\(\) -> Rc<Pattern> \{ (.*) \}', bot_def)
     if not m:
@@ -509,7 +561,7 @@ def generate(repo):
     if pre:
         fail('bot/not are not total expressions')
 
-    fn = norm(find_fn(src, 'execute_instructions'))
+    fn = canon(norm(find_fn(src, 'execute_instructions')), readers)
     m = re.fullmatch(r'fn execute_instructions<\'a>\(buffer: &Vec<InstByte>, stack: &mut Stack, memory: &mut Memory, claims: &mut Claims, '
                      r'phase: ExecutionPhase\) \{ let iterator: &mut InstrIterator = &mut buffer\.iter\(\); (.*) '
                      r'while let Some\(instr_u32\) = iterator\.next\(\) \{ match Instruction::from\(\*instr_u32\) \{ (.*) \} \} \}', fn)
